@@ -25,7 +25,8 @@ var (
 )
 
 func combosFor(tier string) []e3.Combo {
-	combos := []e3.Combo{{Runtime: "google"}, {Runtime: "gogo"}}
+	// quick: both runtimes in the default mode, plus the per-message template with unsafe decoding
+	combos := []e3.Combo{{Runtime: "google"}, {Runtime: "gogo"}, {Runtime: "google", PerMessage: true, Unsafe: true}}
 	if tier == "thorough" {
 		combos = nil
 		for _, rt := range []string{"google", "gogo"} {
@@ -516,7 +517,7 @@ func mapRangeRule(r *core.Result, prog *core.Program) int {
 func checkC16(r *core.Result) {
 	defer releaseExpansion()
 	r.Explanation = "Generator checks without executing generated code: (E2) the parse trees of templates/*.tmpl are linted for non-deterministic inputs (.Now, .Pwd, environment / time / random functions) and the SingleFile and PerMessage templates are compared after normalisation (they must emit the same methods); (E1) every range over a Go map in the generator feeds only order-insensitive sinks or a slice that is sorted afterwards; " +
-		"(E3) the repository's generator, built from the working tree, expands the templates for a descriptor corpus covering every (kind × label × syntax × packing × container) shape, oneofs, maps with every key/value kind, extensions of every kind, nested/recursive/imported types, for the option combinations of the tier; each expansion must succeed (total), emit each output name once under the documented pattern (naming), and type-check with go/types together with the runtime's own generated code (compiles). Thorough tier: all 8 option combinations and a byte-identity cross-reference of two expansions."
+		"(E3) the repository's generator, built from the working tree, expands the templates for a descriptor corpus covering every (kind × label × syntax × packing × container) shape, oneofs, maps with every key/value kind, extensions of every kind, nested/recursive/imported types, for the option combinations of the tier; each expansion must succeed (total), emit each output name once under the documented pattern (naming), give the same per-file output when all corpus files are requested at once (batch), and type-check with go/types together with the runtime's own generated code (compiles). Thorough tier: all 8 option combinations and a byte-identity cross-reference of two expansions."
 	r.RuleText = "one obligation per template block, per map range, per (corpus file × option combination) for total / naming / compiles"
 	r.Assumptions = []string{"text/template execution and protogen are trusted to expand faithfully", "not decided: totality on schemas outside the corpus's atom cross product; groups are outside the supported feature set"}
 	r.Trusted = []string{"text/template/parse", "protogen", "go/types", "protoc-gen-go / protoc-gen-gogo for the message types"}
@@ -556,6 +557,23 @@ func checkC16(r *core.Result) {
 		}
 		r.GroupOb("G-compiles", "the output type-checks for corpus file "+u.File.Pkg, member, pos, len(u.TypeErrors) == 0, strings.Join(firstN(u.TypeErrors, 3), " | "))
 	}
+	// G-batch: one request asking for all corpus files at once yields, file by file, the output of the single-file requests
+	var combos []string
+	for c := range ex.BatchFiles {
+		combos = append(combos, c)
+	}
+	sort.Strings(combos)
+	nBatch := 0
+	for _, c := range combos {
+		if ex.BatchFiles[c] < 2 {
+			continue
+		}
+		nBatch++
+		diff := ex.Batch[c]
+		r.Ob("G-batch", fmt.Sprintf("a request for all %d corpus files at once gives the same output per file [%s]", ex.BatchFiles[c], c), "corpus:* ("+c+")", len(diff) == 0,
+			"the output for a file depends on the other files of the request (state shared between files in the generator): "+strings.Join(firstN(diff, 5), ", "))
+	}
+	r.Floor("multi-file requests", nBatch, 2)
 	r.Floor("corpus units expanded", len(ex.Units), 70)
 	r.Sample(map[string]interface{}{"units": len(ex.Units), "combos": fmt.Sprint(combosFor(r.Tier))})
 }
